@@ -317,6 +317,21 @@ def run(ctx):
     ctx.ob('R10.2', 'JournalReader::open|header cut short is partial data', partial_ctor and len(cons) >= 2,
            'JournalReader::open returns a reader positioned at 0 with partial data when the file ends inside its header (0..9 bytes: the first write failed or did not reach the disk); propagating the read error makes every later start refuse the journal although nothing was ever acknowledged from it', jro.loc(hdr_reads[0]) if hdr_reads else jro.loc())
 
+    # ---- R10.12 the journal thread outlives its clients
+    ctx.rule('R10.12', 'streaming_process (the only journal writer) ends only on journal I/O errors or when the server drops its queue: the result of a send to a per-client channel (history replay) is never propagated with `?` - a client that disconnects during a replay must not end the thread, after which nothing is journaled or flushed any more')
+    n12 = 0
+    for b in sp_bodies:
+        for bi, t, c in b.calls():
+            if bi not in b.reachable() or not (c or '').endswith(('UnboundedSender::send', 'mpsc::bounded::Sender::send', 'oneshot::Sender::send')):
+                continue
+            ty = b.locals[op_local(t['args'][0])][0] if op_local(t['args'][0]) is not None else ''
+            n12 += 1
+            dl = t['d'][0]
+            tried = [x for x, t2, c2 in b.calls() if x in b.reachable() and (c2 or '').endswith('Try>::branch') and t2['args'] and op_local(t2['args'][0]) is not None and dl in b.derived_from(op_local(t2['args'][0]), through_mutation=False)]
+            ctx.ob('R10.12', f'streaming_process|send to a client channel not propagated|{"history" if "Event>" in ty and "EventStreamMessage" not in ty else "callback"}', not tried,
+                   'the result of sending to a channel owned by a client connection is handled locally (stop the replay / ignore), not returned from the journal thread', b.loc(tried[0]) if tried else b.loc(bi))
+    ctx.floor('R10.12', n12, 2, 'sends to client channels in streaming_process')
+
 
 def _src_local(b, st):
     rv = st['rv']
